@@ -51,4 +51,5 @@ props! {
     "C23" => c23,
     "C24" => c24,
     "C25" => c25,
+    "X02" => x02,
 }
